@@ -36,9 +36,14 @@ class C46(Check):
     assumptions = ["extreme rays = minimal-support solutions, Caratheodory bound on minimal solutions (see pbt/hilbert.py)",
                    "systems whose enumeration box exceeds 4e6 points are skipped and counted",
                    "the order of the returned basis is not judged"]
-    tiers = {"quick": {"examples": 3000}, "thorough": {"examples": 100000}}
+    tiers = {"quick": {"examples": 2000}, "thorough": {"examples": 100000}}
     exhaustive = True
     min_nontrivial = 20
+
+    def setup_worker(self, tier):
+        # homogeneous_lde needs tens of seconds (ASan build) on a few 3x4 / 3x5 systems; slowness is not a violation,
+        # so the quick tier gives up on such a program early
+        self.timeout = 25.0 if tier == "quick" else 60.0
 
     def enumerate(self, tier):
         def batches(it, size):
